@@ -23,12 +23,15 @@ main (void)
 	SF_INFO si ;
 	uint32_t nd_size = nondet_uint () ;
 	int nd_flen = nondet_int () ;
-	int nd_start = nondet_int () ;
+	int nd_start = 8 ;	/* the container loop has read the chunk id and size (concrete cache position: R8) */
 	int rc ;
 
 	memset (&si, 0, sizeof (si)) ;
+#ifdef FLEN_FIXED
+	nd_flen = FLEN_FIXED ;
+#endif
 	VASSUME (nd_flen >= 0 && nd_flen <= FLEN_MAX) ;
-	VASSUME (nd_start >= 0 && nd_start <= 16 && nd_start <= nd_flen) ;
+	VASSUME (nd_start <= nd_flen) ;
 	mf [0].len = nd_flen ;
 	mf [0].pos = 0 ;
 	verif_pre_open (psf, &si, SFM_READ, 0, g_hdr, HDRLEN) ;
